@@ -365,6 +365,20 @@ DSerde(D, m, res) ==
         /\ {<<x[2], x[5]>> : x \in DRange(res.ret.de)} = {<<e.c, e.v>> : e \in D}
         /\ Len(res.ret.de) = Cardinality(D)
 
+\* ---------------------------------------------- set algebra (recorded executions) --
+\* the container against a second set holding the classes op.b: the lazy adaptors yield exactly the
+\* mathematical result without repeats, the predicates tell the truth, the container is unchanged
+DSAlgebra(D, op, res) ==
+  LET A == {e.c : e \in D}
+      B == DRange(op.b)
+      want == CASE op.kind = "union" -> A \cup B
+                [] op.kind = "intersection" -> A \cap B
+                [] op.kind = "difference" -> A \ B
+                [] op.kind = "symmetric_difference" -> (A \ B) \cup (B \ A)
+  IN /\ Same(res, D)
+     /\ DNoRepeat(res.ret.y) /\ DRange(res.ret.y) = want
+     /\ res.ret.sub = (A \subseteq B) /\ res.ret.sup = (B \subseteq A) /\ res.ret.dis = (A \cap B = {})
+
 \* ------------------------------------------------------------ dispatch --
 DictAllows(D, cap, op, res) ==
   CASE op.name = "insert"           -> DInsert(D, cap, op.k, op.v, res)
@@ -385,6 +399,7 @@ DictAllows(D, cap, op, res) ==
     [] op.name = "default"          -> DClear(D, res)            \* a new empty container replaces the old one
     [] op.name = "s_default"        -> DSClear(D, res)
     [] op.name = "with_capacity"    -> IF op.c = cap THEN DClear(D, res) ELSE Out(res, <<"panic">>, D, {}, {})
+    [] op.name = "s_algebra"        -> DSAlgebra(D, op, res)
     [] op.name \in {"eq_clone", "s_eq_clone"} -> Same(res, D) /\ Is(res.ret, <<"b", TRUE>>)    \* a container equals its own clone, both ways
     [] op.name = "iter_defaults"    -> Same(res, D) /\ res.ret[1] = "lens" /\ \A i \in 1..Len(res.ret[2]) : res.ret[2][i] = 0
     [] op.name = "s_drop"           -> DSClear(D, res)
